@@ -33,3 +33,49 @@ pub fn pcg32_expand(x: u64, len: usize) -> Vec<u8> {
     }
     out
 }
+
+fn inv_odd(a: u64) -> u64 {
+    // Newton iteration for the inverse of an odd number modulo 2^64
+    let mut x = a;
+    for _ in 0..6 {
+        x = x.wrapping_mul(2u64.wrapping_sub(a.wrapping_mul(x)));
+    }
+    x
+}
+
+fn unxorshift(mut z: u64, k: u32) -> u64 {
+    // invert z ^= z >> k
+    let mut s = k;
+    while s < 64 {
+        z ^= z >> s;
+        s *= 2;
+    }
+    z
+}
+
+/// Inverse of the splitmix64.c output function (finaliser), so that arguments whose j-th expansion
+/// word has a chosen value can be constructed.
+pub fn splitmix_unmix(y: u64) -> u64 {
+    let mut z = unxorshift(y, 31);
+    z = z.wrapping_mul(inv_odd(0x94d049bb133111eb));
+    z = unxorshift(z, 27);
+    z = z.wrapping_mul(inv_odd(0xbf58476d1ce4e5b9));
+    unxorshift(z, 30)
+}
+
+/// The u64 argument x for which the j-th (1-based) SplitMix64 output of the stream started at x is y.
+pub fn splitmix_argument_for(j: u64, y: u64) -> u64 {
+    splitmix_unmix(y).wrapping_sub(j.wrapping_mul(crate::xoshiro::SPLITMIX_PHI))
+}
+
+pub fn self_check() -> Result<(), String> {
+    for (j, y) in [(1u64, 0u64), (3, 0xdeadbeef00000000), (8, 0x00000000ffffffff), (2, u64::MAX)] {
+        let x = splitmix_argument_for(j, y);
+        let e = splitmix_expand(x, 8 * j as usize);
+        let got = u64::from_le_bytes(e[8 * (j as usize - 1)..8 * j as usize].try_into().unwrap());
+        if got != y {
+            return Err(format!("splitmix inverse self-check failed for j={} y={:#x}", j, y));
+        }
+    }
+    Ok(())
+}
